@@ -23,7 +23,7 @@ def main():
         print('refusing: /repo has local changes'); sys.exit(2)
     scratch = f'{V}/sim/target/scratch/selftest'
     shutil.rmtree(scratch, ignore_errors=True); os.makedirs(scratch+'/replays'); os.makedirs(scratch+'/evidence')
-    env = dict(os.environ, VERIF_REPLAY_DIR=scratch+'/replays', VERIF_EVIDENCE_DIR=scratch+'/evidence')
+    env = dict(os.environ, VERIF_REPLAY_DIR=scratch+'/replays', VERIF_EVIDENCE_DIR=scratch+'/evidence', VERIF_WATCHDOG_S=os.environ.get('VERIF_WATCHDOG_S','30'))
     if kind == 'mutants':
         idx = json.load(open(f'{V}/mutants/index.json'))
         items = [(n, f'{V}/mutants/{n}.patch', idx[n]['breaks'], idx[n]['green']) for n in idx if not names or n in names]
